@@ -65,6 +65,15 @@ func (*StringCastingMangler) Unmangle(sf reflect.StructField, vs []FieldValueTup
 		boxed.Elem().Set(parsed.Convert(sf.Type.Elem()))
 		parsed = boxed
 	}
+	// parse.String returns scalars as pointers to the predeclared types; the
+	// conversion above covers *T for a user-defined T, but not a user-defined
+	// pointer type (type P *T): convert the pointee and box it as P.
+	if sf.Type.Kind() == reflect.Ptr && parsed.Kind() == reflect.Ptr && parsed.Type() != sf.Type && !parsed.IsNil() &&
+		parsed.Type().Elem().Kind() == sf.Type.Elem().Kind() && parsed.Type().Elem().ConvertibleTo(sf.Type.Elem()) {
+		boxed := reflect.New(sf.Type.Elem())
+		boxed.Elem().Set(parsed.Elem().Convert(sf.Type.Elem()))
+		parsed = boxed.Convert(sf.Type)
+	}
 	return parsed, nil
 }
 
